@@ -54,7 +54,8 @@
 (*       REQUIRED design: the count of the enclosing element is put back), *)
 (*       "wipe" (the entry is deleted: the next sibling counts from zero), *)
 (*       "nobound" (no count at all - the pinned tree).  Registered:       *)
-(*       "parent"; with the others TLC refutes NoPanic (Totality_round2).  *)
+(*       "parent"; with the others TLC refutes NoPanic (Totality_wipe.cfg, *)
+(*       Totality_pinned.cfg).                                             *)
 (*                                                                         *)
 (* The Properties section is written from the statement of C09 only.       *)
 (***************************************************************************)
@@ -336,7 +337,7 @@ InitT == \/ InitAssnFam(RespEntries, BOOLEAN)
 IsResp   == in.entry \in RespEntries
 IsLogout == in.entry \in LogoutEntries
 IsAuthn  == in.entry \in AuthnEntries
-IsSPMD   == in.entry \in SPMDEntries \cup NestEntries
+IsSPMD   == in.entry \in SPMDEntries
 IsNest   == in.fam = "nest"
 IsIDPMD  == in.entry \in IDPMDEntries
 
